@@ -46,7 +46,9 @@ def r1(rr, repo):
         if ret is None:
             rr.ob('process_frames returns on every path', False, mod, fn, witness=w, key='noreturn')
             continue
-        if isnone is True:
+        if ret == 'None' and isnone is not True:
+            rr.violated('a result of process() that is not None is turned into None (the frame set is silently dropped)', mod, fn, witness=w, key='non-none-dropped')
+        elif isnone is True:
             seen.add('none')
             rr.ob('None from process() is passed on as None (nothing is sent)', ret == 'None', mod, fn, witness=w, key='none')
         elif call is True:
@@ -141,7 +143,11 @@ def r3(rr, repo):
     mqm, mq_send = repo.find(f'{MQF}::MQ.send')
     param = q.func_params(mq_send)[1]
     ev = Evaluator(repo, mqm)
-    ps = ev.run(mq_send.body)
+    start = Path()
+    start.facts[f'isnone({param})'] = True       # assumption: process() returned None
+    start.facts[f'truthy({param})'] = False
+    start.pc.append((f'isnone({param})', True))
+    ps = ev.run(mq_send.body, start)
     rr.paths += len(ps)
     n = 0
     for p in ps:
